@@ -65,3 +65,42 @@ def seg_inv(seg):
         if seg.seg_id != 'ISA' and c.subele_term != seg.subele_term:
             return False
     return True
+
+
+def spec_parse(text, st, et, sub):
+    """(seg_id, view) of a segment text: split at the element separator, components at the component
+    separator - never inside an ISA segment; an optional trailing segment terminator is dropped"""
+    if text is None or text == '':
+        return (None, [])
+    body = text[:-1] if text[-1] == st else text
+    pieces = list(body.split(et))
+    seg_id = pieces[0]
+    v = []
+    for p in pieces[1:]:
+        if seg_id == 'ISA':
+            v = v + [[p]]
+        else:
+            v = v + [list(p.split(sub))]
+    return (seg_id, v)
+
+
+def trim_view(v):
+    """trailing empty elements dropped (an element is empty when all its components are)"""
+    k = len(v)
+    while k > 0 and all_empty(v[k - 1]):
+        k -= 1
+    return v[:k]
+
+
+def all_empty(comps):
+    for c in comps:
+        if c != '':
+            return False
+    return True
+
+
+def spec_format(seg_id, v, st, et, sub):
+    """text of a segment: id, elements joined by the element separator (trailing empty elements and trailing
+    empty components trimmed), terminator"""
+    t = trim_view(v)
+    return '%s%s%s%s' % (seg_id, et, et.join([elem_text(c, sub) for c in t]), st)
